@@ -105,6 +105,8 @@ def audit(prop):
 def build_harness(tags="verif", race=False, overlay=None):
     os.makedirs(WORK, exist_ok=True)
     shutil.copy(os.path.join(REPO, "go.sum"), os.path.join(HARNESS, "go.sum"))
+    if REPO != "/repo":  # agent workspaces build against their own worktree
+        sh(["go", "mod", "edit", "-replace", "github.com/go-python/gpython=" + REPO], cwd=HARNESS, env=GOENV)
     out_bin = os.path.join(WORK, "gpyh" + ("-race" if race else ""))
     cmd = ["go", "build", "-tags", tags, "-o", out_bin]
     if race:
